@@ -34,7 +34,7 @@ def plan(tier):
     return {"cases": 3000 if tier == "quick" else 100000, "shards": 16, "case_timeout": 60, "shard_timeout": 3000,
             "min_nontrivial": 100,
             "min_counters": {"facts_asserted": 8000, "derived_facts_checked": 8000, "permutation_cases": 500,
-                             "field:sub_org_of": 500, "field:head_of": 300, "field:part_of": 300, "field:under": 100, "field:chairs": 50, "field:leads": 40, "field:runs": 60, "form:ctor": 200, "form:assign_keep": 30}}
+                             "field:sub_org_of": 500, "field:head_of": 300, "field:part_of": 300, "field:under": 100, "field:chairs": 50, "field:leads": 40, "field:runs": 60, "role_class:ChiefF": 100, "form:ctor": 200, "form:assign_keep": 30}}
 
 
 def setup(ctx):
@@ -62,7 +62,7 @@ def gen_population(rng):
         pop.append([f"o{i}", rng.choice(["Org", "Org", "Dept"]), None])
     persons = [p[0] for p in pop if p[0].startswith("p")]
     for i in range(rng.randint(0, 2)):
-        pop.append([f"c{i}", "Chief", rng.choice(persons)])
+        pop.append([f"c{i}", rng.choice(["Chief", "Chief", "ChiefF"]), rng.choice(persons)])
     for i in range(rng.choice([0, 0, 1, 2])):
         pop.append([f"u{i}", "Unit", None])
     for i in range(rng.choice([0, 0, 1, 2])):
@@ -263,7 +263,7 @@ def run(spec, ctx):
     pop = {name: (cls, tk) for name, cls, tk in spec["pop"]}
     for name, (cls, tk) in pop.items():
         kinds[name] = cls
-        if cls in ("Chief", "Chair"):
+        if cls in ("Chief", "ChiefF", "Chair"):
             taker[name] = tk
 
     class Named(dict):
@@ -271,7 +271,8 @@ def run(spec, ctx):
 
         def create(self, name, **kwargs):
             cls, tk = pop[name]
-            if cls in ("Chief", "Chair"):
+            if cls in ("Chief", "ChiefF", "Chair"):
+                C["role_class:" + cls] += 1
                 obj = om.ALL_CLASSES[cls](self[tk], **kwargs)
             elif cls in ("VOrg", "VPerson"):
                 obj = om.ALL_CLASSES[cls](tk, **kwargs)          # the display name repeats: value-equal twins
